@@ -79,7 +79,8 @@ def check_curve(ctx, sy, grid, mean, inp):
     try:
         with sim.record_integrate(sy) as calls:
             sim.dirty_heap(ctx.rng, len(g))
-            W = [float(v) for v in sr.compute_rise_curve(sy, g, mean)]
+            with common.time_limit(120):
+                W = [float(v) for v in sr.compute_rise_curve(sy, g, mean)]
     except Exception as e:  # noqa
         ctx.violation("impl-violation", "c17Holds", {"input": dict(inp, grid_layout={"dtype": str(g.dtype), "strides": list(g.strides)}),
                       "impl": repr(e)[:300], "oracle": {"name": "c17Holds", "result": False, "witness": {
@@ -160,6 +161,12 @@ def run(ctx):
             grid = sorted({round(rng.uniform(a, b), 1) for _ in range(n)})
             if rng.random() < 0.3 and int(a) + 3 < int(b):
                 grid = sorted({float(rng.randint(int(a) + 1, int(b) - 1)) for _ in range(n)})        # levels in whole millimetres
+            # levels exactly on knots (round-number knots on a commensurate level grid): both end knots for the grids
+            # that straddle the range, an interior knot for those inside it
+            if kind == "straddle":
+                grid = sorted(set(grid) | {float(lo), float(hi)})
+            elif kind == "inside" and len(knots) > 2:
+                grid = sorted(set(grid) | {float(rng.choice(list(knots)[1:-1]))})
             if len(grid) < 2:
                 continue
             mean = rng.choice([rng.uniform(-50, 50), rng.uniform(-50, 50), 0.0, None, float(rng.randint(-3, 3)), 10 ** rng.uniform(-12, 3)])
